@@ -23,8 +23,7 @@ def _jobs(tier):
         jobs.append(dict(sub="cplx_api", count=n, fix=dict(k=k), split=split))
         jobs.append(dict(sub="drivers", count=n, fix=dict(k=k), split=split))
         jobs.append(dict(sub="simple", count=n // 2, fix=dict(k=k), split=split))
-        if k <= 12:
-            jobs.append(dict(sub="precomp_buffers", count=max(200, n // 8), fix=dict(k=k)))
+        jobs.append(dict(sub="precomp_buffers", count=max(200, n // 8) if k <= 12 else max(12, n // 8), fix=dict(k=k)))
     jobs.append(dict(sub="leaf", count=120000 * mult, split=4 * (1 if tier == "quick" else 4)))
     return jobs
 
